@@ -327,7 +327,7 @@ def gen_action(rng: random.Random, profile: str = "general"):
     if x < 0.965:
         return ["lagcmd", rng.choice(["Disinfection", "Heating", "Swim", "Tank"]), rng.choice([1.5, 3.0]), "/settings/mode", rng.choice(MODES)]
     if x < 0.97:
-        return ["lag", rng.choice(["Filtration", "Heating", "Tank", "Swim", "Disinfection"]), rng.choice([0.5, 1.0])]
+        return ["lag", rng.choice(["Filtration", "Heating", "Tank", "Swim", "Disinfection", "TemperatureReader", "DisinfectionReader"]), rng.choice([0.5, 1.0, 12.0])]
     if x < 0.975:
         return ["racelag", rng.choice(["Disinfection", "Heating", "Swim", "Tank"]), rng.choice([1.5, 3.0]), "/settings/mode", rng.choice(MODES)]
     n = rng.randint(2, 4)
